@@ -20,6 +20,7 @@ package s2
 import (
 	"math"
 
+	"github.com/golang/geo/r3"
 	"github.com/golang/geo/s1"
 )
 
@@ -443,7 +444,7 @@ func EdgePairClosestPoints(a0, a1, b0, b1 Point) (Point, Point) {
 func PointOnLine(a, b Point, r s1.Angle) Point {
 	// Use RobustCrossProd() to compute the tangent vector at A towards B.  This
 	// technique is robust even when A and B are antipodal or nearly so.
-	dir := Point{a.PointCross(b).Cross(a.Vector).Normalize()}
+	dir := Point{normalizeTiny(a.PointCross(b).Cross(a.Vector))}
 	return PointOnRay(a, dir, r)
 }
 
@@ -455,7 +456,7 @@ func PointOnLine(a, b Point, r s1.Angle) Point {
 //	|
 //	a --------> b
 func PointToLeft(a, b Point, r s1.Angle) Point {
-	return PointOnRay(a, Point{a.PointCross(b).Normalize()}, r)
+	return PointOnRay(a, Point{normalizeTiny(a.PointCross(b).Vector)}, r)
 }
 
 // PointToRight returns a Point to the right of the edge from `a` to `b` which
@@ -466,7 +467,20 @@ func PointToLeft(a, b Point, r s1.Angle) Point {
 //	|
 //	c (result)
 func PointToRight(a, b Point, r s1.Angle) Point {
-	return PointOnRay(a, Point{b.PointCross(a).Normalize()}, r)
+	return PointOnRay(a, Point{normalizeTiny(b.PointCross(a).Vector)}, r)
+}
+
+// normalizeTiny returns v scaled to unit length. Vectors shorter than about
+// 1e-150 (the cross product of two distinct points that are parallel or
+// antipodal to within that angle) are first rescaled by a power of two, since
+// the squared norm used by Normalize would otherwise underflow and the result
+// would be the zero vector or a vector that is not unit length.
+func normalizeTiny(v r3.Vector) r3.Vector {
+	if m := math.Max(math.Abs(v.X), math.Max(math.Abs(v.Y), math.Abs(v.Z))); m != 0 && m < 0x1p-500 {
+		_, e := math.Frexp(m)
+		v = r3.Vector{X: math.Ldexp(v.X, -e), Y: math.Ldexp(v.Y, -e), Z: math.Ldexp(v.Z, -e)}
+	}
+	return v.Normalize()
 }
 
 // PointOnRay returns the point at distance "r" along the ray with the given
